@@ -23,6 +23,7 @@ func init() {
 			"(D5) the list parser returns exactly the scanner's read error after the scan, so a transfer that broke off cannot reach the replace step as a success. " +
 			"(D5, cont.) a pending file receives the output of at most one parse: neither the Parse call that writes into it nor the calls leading to it lie on a cycle (no retry into the same pending file). " +
 			"(D6) the bytes that replace the configuration file are encoded into a buffer made by that very save. " +
+			"(D3, cont.) NewPendingFile hands out what the platform constructor made, not another layer (a write buffer) whose flush could fail after the writes were reported successful. " +
 			"Not decided: crash semantics of rename/fsync on a filesystem (renameio is trusted), Windows (the package documents it as non-atomic).",
 		RuleText: "Write-primitive sites are enumerated by resolved callee over all module functions; provenance by backward SSA slice with interprocedural depth 4.",
 		Assumptions: []string{
@@ -290,6 +291,33 @@ func c14Wrappers(c *Ctx) {
 		}
 		found, tr, _ := core.Reach(core.Query{From: []core.Point{core.Entry(fn)}, Target: core.IsReturn, Avoid: core.IsCallTo(false, x.must)})
 		r.Check(!found, "C14-D3", "wrapper:"+x.fn, p.FnPos(fn), x.why, x.fn+" can return without calling "+x.must, p.TraceString(tr))
+	}
+	// what NewPendingFile hands out is the platform's pending file itself, not another layer around it: a layer
+	// that holds data back (a write buffer) has a flush of its own that can fail after everything written so far
+	// was reported successful, and its CloseReplace decides about the commit without the callers' error
+	if fn := p.FnRaw("aghrenameio.NewPendingFile"); fn == nil || fn.Blocks == nil {
+		r.Undecided("C14-D3", "wrapper:NewPendingFile-hands-out-the-platform-file", "-", "anchor not found")
+	} else {
+		okAll, nRet := true, 0
+		for _, b := range fn.Blocks {
+			for _, in := range b.Instrs {
+				ret, ok := core.AsReturn(in)
+				if !ok || len(ret.Results) != 2 {
+					continue
+				}
+				for _, leaf := range core.FlattenPhi(core.ResolveCellLoad(core.ResolveLocalLoad(core.Res(ret, 0)))) {
+					if core.IsNilConst(leaf) {
+						continue
+					}
+					nRet++
+					if !core.IsCallResult(leaf, 0, "aghrenameio.newPendingFile", "aghrenameio.NewPendingFile") { // the thin wrapper lends its name to the implementation
+						okAll = false
+					}
+				}
+			}
+		}
+		r.Check(okAll && nRet > 0, "C14-D3", "wrapper:NewPendingFile-hands-out-the-platform-file", p.FnPos(fn),
+			"NewPendingFile returns what newPendingFile made", "NewPendingFile wraps the platform's pending file in another object: writes no longer go straight to the temporary file, and a failure of the extra layer at commit time can publish a truncated file")
 	}
 	// the value returned by newPendingFile wraps the renameio file
 	if fn := p.Fn("aghrenameio.newPendingFile"); fn != nil {
